@@ -83,7 +83,12 @@ RULE = ("objects of the 18 model classes generated from the attrs schemas: full 
         "and values, branch names, alias targets, entry names, metadata keys and values - object and dictionary routes, "
         "nested objects too) carries a string / bytes literal harvested with ast from swh/model/*.py of the tree UNDER "
         "TEST (gitobj_common.source_tokens) as prefix / suffix / infix / whole; the Release id oracle handed to the model "
-        "is an independent tag-object writer (not /repo's compute_hash); non-trivial = an "
+        "is an independent tag-object writer (not /repo's compute_hash); sequences whose Unicode normal forms differ "
+        "(gitobj_common.NFC_UNSTABLE: decomposed accents, ANGSTROM SIGN, CJK compatibility ideographs, Hangul jamo, "
+        "ligatures, Greek question mark) in about 3 % of the free-form values and, deterministically, each sequence "
+        "once in every free-text field / mapping key / mapping value of every class together with its twin in another "
+        "normal form (exact attribute-for-attribute round trip; the twin is another object with another dictionary); "
+        "non-trivial = an "
         "object with >=1 optional field set and >=1 optional field None/elided, or a dictionary-level case; "
         "distinct = distinct canonical case")
 TRUSTED = ["attrs: __init__ binds kwargs by name, applies converters, runs validators in field order, then "
@@ -697,10 +702,19 @@ FREE_FIELDS = {
     "ExtID": ["extid_type", "extid", "payload_type"], "TimestampWithTimezone": ["offset_bytes"],
 }
 SPLICE_P = 0.1
+NFC_P = 0.03
 
 
 def _tok(g, v):
     """v (str or bytes) with a literal harvested from swh/model/*.py of the tree under test spliced in, 1 time in 10"""
+    if g.r.random() < NFC_P:
+        try:        # a sequence whose Unicode normal forms differ: nothing may normalise it
+            from .gitobj_common import NFC_UNSTABLE
+            u = g.r.choice(NFC_UNSTABLE)
+            u = u.encode("utf-8") if isinstance(v, bytes) else u
+            return g.r.choice([u + v, v + u, u])
+        except Exception:
+            return v
     if g.r.random() >= SPLICE_P:
         return v
     try:
@@ -832,6 +846,91 @@ def token_sweep_cases(g, quick):
             emit(SObj(spec.cls, [(n, (form(t, "json") if n == "format" else x)) for n, x in spec.fields if n != "origin"]
                       + [("origin", v)]))
             emit(SObj("ExtID", [("extid_type", v), ("extid", form(t.encode("utf-8", "replace"), b"e")), ("target", g.core())]))
+    return out
+
+
+def _other_normal_form(v):
+    """the same text in another Unicode normal form (NFC, else NFD), or None when both equal v / v is not UTF-8"""
+    import unicodedata
+    try:
+        t = v.decode("utf-8") if isinstance(v, bytes) else v
+        for form in ("NFC", "NFD", "NFKC"):
+            n = unicodedata.normalize(form, t)
+            if n != t:
+                return n.encode("utf-8") if isinstance(v, bytes) else n
+    except Exception:
+        pass
+    return None
+
+
+def nfc_sweep_cases(g, quick):
+    """each sequence whose Unicode normal forms differ, once in every free-text field (str, bytes, mapping keys and
+    values) of every class, with its twin in another normal form: both round-trip exactly and are different objects
+    with different dictionaries"""
+    try:
+        from .gitobj_common import NFC_UNSTABLE
+    except Exception:
+        return []
+    out = []
+    sha, core, date = g.sha(), g.core(), g.date()
+    person = lambda b: SObj("Person", [("fullname", b), ("name", None), ("email", None)])
+    auth = lambda u, md=None: SObj("MetadataAuthority", [("type", SEnum("D", "forge")), ("url", u)] + ([("metadata", md)] if md else []))
+    fet = lambda n, v="1", md=None: SObj("MetadataFetcher", [("name", n), ("version", v)] + ([("metadata", md)] if md else []))
+    rel = lambda **kw: SObj("Release", [("name", kw.get("name", b"n")), ("message", kw.get("message")), ("target", sha),
+                                        ("target_type", SEnum("B", "revision")), ("synthetic", False),
+                                        ("author", kw.get("author")), ("date", None)]
+                            + ([("metadata", kw["metadata"])] if "metadata" in kw else []))
+    rev = lambda **kw: SObj("Revision", [("message", kw.get("message")), ("author", kw.get("author")), ("committer", None),
+                                         ("date", None), ("committer_date", None), ("type", SEnum("C", "git")),
+                                         ("directory", sha), ("synthetic", False)]
+                            + ([("metadata", kw["metadata"])] if "metadata" in kw else [])
+                            + ([("extra_headers", kw["extra_headers"])] if "extra_headers" in kw else []))
+    rem = lambda **kw: SObj("RawExtrinsicMetadata", [("target", SSwhid("x", "dir", sha)), ("discovery_date", date),
+                                                     ("authority", kw.get("authority", auth("u"))), ("fetcher", kw.get("fetcher", fet("n"))),
+                                                     ("format", kw.get("format", "json")), ("metadata", kw.get("metadata", b"{}"))]
+                            + [(k, kw[k]) for k in ("origin", "path") if k in kw])
+    skipped = lambda **kw: SObj("SkippedContent", [("sha1", None), ("sha1_git", sha), ("sha256", None), ("blake2s256", None),
+                                                   ("length", 1), ("status", "absent"), ("reason", kw.get("reason", "r"))]
+                                + ([("origin", kw["origin"])] if "origin" in kw else []))
+    makers_b = [
+        lambda b: person(b), lambda b: SObj("Person", [("fullname", b"f"), ("name", b), ("email", b)]),
+        lambda b: rel(name=b), lambda b: rel(message=b), lambda b: rel(author=person(b)),
+        lambda b: rev(message=b), lambda b: rev(author=person(b)), lambda b: rev(extra_headers=((b, b"v"), (b"k", b))),
+        lambda b: SObj("Directory", [("entries", (SObj("DirectoryEntry", [("name", b), ("type", "file"), ("target", sha),
+                                                                          ("perms", 0o100644)]),))]),
+        lambda b: SObj("Snapshot", [("branches", SDict([(b, SObj("SnapshotBranch", [("target", b), ("target_type", SEnum("A", "alias"))]))]))]),
+        lambda b: SObj("Content", [("sha1", sha), ("sha1_git", sha), ("sha256", sha), ("blake2s256", sha), ("length", 1), ("data", b)]),
+        lambda b: rem(metadata=b), lambda b: rem(path=b),
+        lambda b: SObj("ExtID", [("extid_type", "t"), ("extid", b), ("target", core)]),
+        lambda b: SObj("TimestampWithTimezone", [("timestamp", SObj("Timestamp", [("seconds", 1), ("microseconds", 0)])), ("offset_bytes", b)]),
+        lambda b: rel(metadata=SDict([("k", b), ("l", [b, (b,)])])),
+    ]
+    makers_s = [
+        lambda t: SObj("Origin", [("url", t)]),
+        lambda t: SObj("OriginVisit", [("origin", t), ("date", date), ("type", "git")]),
+        lambda t: SObj("OriginVisit", [("origin", "o"), ("date", date), ("type", t)]),
+        lambda t: SObj("OriginVisitStatus", [("origin", t), ("visit", 1), ("date", date), ("status", "full"), ("snapshot", None),
+                                             ("type", t), ("metadata", SDict([(t, t)]))]),
+        lambda t: skipped(reason=t), lambda t: skipped(origin=t),
+        lambda t: auth(t), lambda t: auth("u", SDict([(t, 1), ("v", t)])),
+        lambda t: fet(t), lambda t: fet("n", t), lambda t: fet("n", "1", SDict([(t, SDict([(t, t)]))])),
+        lambda t: rem(format=t), lambda t: rem(origin=t), lambda t: rem(authority=auth(t)), lambda t: rem(fetcher=fet(t)),
+        lambda t: SObj("ExtID", [("extid_type", t), ("extid", b"e"), ("target", core), ("payload_type", t), ("payload", sha)]),
+        lambda t: rel(metadata=SDict([(t, 1)])), lambda t: rev(metadata=SDict([(t, t)])),
+    ]
+    for u in NFC_UNSTABLE:
+        for kind, makers, val in (("b", makers_b, u.encode("utf-8")), ("s", makers_s, u)):
+            vals = [val] if quick else [val, (b"x" if kind == "b" else "x") + val, val + (b"y" if kind == "b" else "y")]
+            for v in vals:
+                tw = _other_normal_form(v)
+                for mk in makers:
+                    try:
+                        c = {"cls": mk(v).cls, "kind": "obj", "route": "nfc", "w": enc(fix_right_id(mk(v)))}
+                        if tw is not None:
+                            c["twin"] = enc(fix_right_id(mk(tw)))
+                        out.append(c)
+                    except Exception:
+                        pass
     return out
 
 
@@ -1626,6 +1725,7 @@ def gen(rng, tier):
     cases += _guard(mixed_dict_cases, g, quick)
     cases += _guard(boundary_cases, g)
     cases += _guard(token_sweep_cases, g, quick)
+    cases += _guard(nfc_sweep_cases, g, quick)
     rng.shuffle(specs)
     cases += _guard(dict_variants, g, specs[: (600 if quick else 20000)])
     # BaseContent.from_dict dispatches on status
@@ -1701,6 +1801,13 @@ def impl(c):
             res["untouched"] = (res["d_after"] == enc(abstract(dc))) and d == dc
         except NotPlain:
             res["untouched"] = d == dc
+        if c.get("twin"):
+            try:      # the same object written in another Unicode normal form is ANOTHER object with another dictionary
+                tw = realize(dec(c["twin"]))
+                res["twin_distinct"] = enc(abstract(tw)) != res["new"] and enc(abstract(tw.to_dict())) != res["d"]
+                res["exact"] = res["o2"] == res["new"]
+            except Exception as e:
+                res["twin_distinct"] = "!" + exc_class(e)
         try:
             res["twice"] = bool(type(o).from_dict(d) == o2)
         except Exception:
@@ -1931,6 +2038,10 @@ def oracle(c, ires, mres):
             return "from_dict modified the dictionary it was given"
         if ires.get("twice") is False:
             return "decoding to_dict(o) a second time does not give the same object"
+        if ires.get("twin_distinct") is False:
+            return "the object and its twin in another Unicode normal form are the same object / have the same dictionary"
+        if ires.get("exact") is False:
+            return "from_dict(to_dict(o)) is not o attribute for attribute: %s" % ires.get("o2")
         return None
     if not ires.get("untouched"):
         return "from_dict modified the dictionary it was given: before/after differ (after: %s)" % ires.get("d_after")
